@@ -210,7 +210,7 @@ func genMuxCfg(r *Run, g *muxGen) *muxCfg {
 		if c.vname != "mpegts" {
 			kind = Pick(T, "h264", "h264", "h265", "vp9", "av1")
 		}
-		p := videoParamVariant(kind, T.Intn(4))
+		p := videoParamVariant(kind, T.Intn(16))
 		ts := &trackSpec{kind: kind, video: true, clock: 90000, initial: p}
 		ts.t = newVideoTrack(kind, p)
 		specs = append(specs, ts)
